@@ -6,7 +6,7 @@ GROUP = "Secrets"
 META = {
     "group": GROUP,
     "technique": "Coq proof that the shared elision decision covers every secret-bearing setting name for any store + vm_compute correspondence and canary scan against both real /admin/config handlers",
-    "text": "Theorems C44_config / C44_response_named_clean / C44_response_all_clean: for every settings store and every request, a setting whose name is secret-bearing (the names defined in internal/defs, compared case-insensitively, or any name mentioning a password) is returned as the elided placeholder by both configuration handlers; C44_current_names discharges the side condition for the names of this tree (re-read from the code on every run). The decision function of the model is compared with both real handlers on generated names, and the raw response bodies are scanned for canary values. partial: the /admin/users handlers are only observed (created/updated/listed/deleted users with canary passwords; every response body scanned for the plaintext and the stored credential); DSN and OAuth-client endpoints are read, not driven.",
+    "text": "Theorems C44_config / C44_response_named_clean / C44_response_all_clean: for every settings store and every request, a setting whose name is secret-bearing (the names defined in internal/defs, compared case-insensitively, or any name mentioning a password) is returned as the elided placeholder by both configuration handlers; C44_current_names discharges the side condition for the names of this tree (re-read from the code on every run). The decision function of the model is compared with both real handlers on generated names, and the raw response bodies are scanned for canary values. partial: the /admin/users handlers are only observed (created/updated/listed/deleted users with canary passwords; every response body scanned for the plaintext and the stored credential) and so are the /dsns handlers (sqlite and postgres DSNs with canary passwords); OAuth-client endpoints are read, not driven.",
     "note": "Trusted: Coq kernel; the hand-written model of isSecretSetting / the two handlers (ASCII names; strings.EqualFold and ToLower modelled on ASCII) tied to the code by the correspondence run; the reading of the property that fixes which settings are secret-bearing (token key, logon and refresh tokens, userdata key, default credential, OAuth client secret, any *password* name).",
 }
 ALPHA = "abcdefghijklmnopqrstuvwxyz.ABCDEFGHIJKLMNOPQRSTUVWXYZ_0123456789"
@@ -145,6 +145,30 @@ def run(ck):
                              replay={"handler": lk[0], "kind": lk[1], "user": lk[2]})
             ck.cov["evaluations"] += calls
             ck.cov["input_distribution"]["user_handler_calls_scanned"] = calls
+    # ---- observed remainder: the /dsns handlers with canary passwords (sqlite and postgres providers)
+    ok3, bin3 = vf.go_test_build(ck.work, "internal/server/dsns",
+                                 {"internal/server/dsns/zz_verif_c44d_test.go": os.path.join(vf.HARNESS, "C44", "dsns_canary_test.go")},
+                                 "c44d.test")
+    if not ok3:
+        ck.violation("harness-build-dsns", "dsns harness does not build:\n" + bin3[-1500:], replay={"log": bin3[-3000:]}, found_input=False)
+    else:
+        out3 = os.path.join(ck.work, "out_dsns.txt")
+        rc, log = vf.run_bin(bin3, "^TestVerifC44DSNs$", {"VERIF_OUT": out3, "VERIF_N": "2" if quick else "10"}, cwd=ck.work)
+        calls, leaks = 0, []
+        if rc != 0 or not os.path.exists(out3):
+            ck.violation("harness-run-dsns", "dsns harness failed:\n" + log[-1500:], replay={"log": log[-3000:]}, found_input=False)
+        else:
+            for line in open(out3):
+                f = line.split()
+                if f[0] == "C":
+                    calls += 1
+                elif f[0] == "L":
+                    leaks.append(f[1:])
+            for lk in leaks[:5]:
+                ck.violation("dsns-leak:" + lk[0], "/dsns handler %r put the %s password of DSN %s into its response body" % (lk[0], lk[1], lk[2]),
+                             replay={"handler": lk[0], "kind": lk[1], "dsn": lk[2]})
+            ck.cov["evaluations"] += calls
+            ck.cov["input_distribution"]["dsn_handler_calls_scanned"] = calls
     # ---- correspondence + regenerated obligation
     if getattr(ck, "coq_broken", None):
         return
